@@ -37,6 +37,15 @@ class Once(ast.stmt):
     _fields = ("body",)
 
 
+def _unparse_once(self, node):  # ast.unparse support for the synthetic block
+    self.fill("for _once in (None,)")
+    with self.block():
+        self.traverse(node.body)
+
+
+ast._Unparser.visit_Once = _unparse_once  # type: ignore[attr-defined]
+
+
 def normalise(tree: ast.Module) -> None:
     """Single-module form (kept for probes): no cross-module helpers."""
     normalise_program({"<module>": tree}, set())
